@@ -18,13 +18,15 @@ LEVEL_TEXT = (
     "Lean theorems about an executable hand model of Linker.link / inject_object / merge_global_symbol / layout_sections / "
     "check_undefined_symbols / Image.data / get_symbol_id_value, for ALL object lists and layouts (induction over objects, sections, "
     "symbols and layout inputs, no bounds): every input section's bytes stand unchanged at its recorded offset of the output section, "
-    "recorded offsets are multiples of the piece alignment and the pieces are disjoint and ordered; after layout every placed section "
-    "has addr % align = 0 and lies inside [mem.location, mem.location+mem.size], sections of one image are a sorted non-overlapping "
-    "chain, Image.data succeeds and restricted to a section equals the section (and Image.data fails exactly on a non-chain); every "
-    "defined input symbol resolves to final section address + recorded offset + its value; piece addresses are aligned when "
-    "alignments are powers of two; and, for well-formed requests, the link fails iff a global is multiply defined, a global is "
-    "undefined (non-partial link) or a memory is overfull (Spec.Link), always with CompilerError. Relocation application/relaxation "
-    "are not modelled (C10/C11/C13): relocation sites are exempt, relocation records are only rebased.")
+    "recorded offsets are multiples of the piece alignment and the pieces are disjoint and ordered; every defined input symbol and "
+    "every DEFINESYMBOL resolves to final section address + recorded offset + its value; Image.data returns bytes exactly on ascending "
+    "non-overlapping section lists and then restricts to each section. Under the explicit hypothesis that the layout places every "
+    "section at most once: every placed section has addr % align = 0 and lies inside [mem.location, mem.location+mem.size], sections "
+    "of one image are a sorted non-overlapping chain, Image.data of every image succeeds. Piece addresses are aligned when the "
+    "alignments are powers of two (only place where that is needed). PARTIAL (link_fails_iff_partial): for well-formed requests "
+    "(Spec.Link.WF) the link fails iff a global is multiply defined, a global is undefined (non-partial link) or a memory is "
+    "overfull (abstract placement of Spec.Link), always with CompilerError; nothing is proved about failure of ill-formed requests. "
+    "Relocation application/relaxation are not modelled (C10/C11/C13): relocation sites are exempt, records are only rebased.")
 LEVEL_NOTE = (
     "trusted: Lean kernel; axioms propext/Classical.choice/Quot.sound; the hand model <-> linker.py/objectfile.py correspondence is "
     "sampled through the real ppci.api.link (not proved); Python dict/identity semantics modelled by name lookup; layout-file parsing, "
@@ -563,11 +565,12 @@ def check_property(ctx, c, impl, objs, observed, model, spec):
             if in_image and all_pow2 and (osec.address + off) % s["alignment"] != 0:
                 ctx.fail("layout_sections:piece-misaligned",
                          f"piece {s['name']} of object {k} ends up at address {osec.address + off}, alignment {s['alignment']}", c)
-    # sections of one image never overlap (whatever the layout looked like)
-    for img in out.images:
+    # sections of one image never overlap (layouts that place every section once; a section named by two
+    # memories keeps its last address while the first image still lists it – outside the property, see notes)
+    for img in (out.images if wf else []):
         rs = sorted((s.address, s.address + s.size, s.name) for s in img.sections if s.size)
         for a, b in zip(rs, rs[1:]):
-            if b[0] < a[1] and (wf or a[2] != b[2]):
+            if b[0] < a[1]:
                 ctx.fail("layout_sections:sections-overlap", f"sections {a[2]} and {b[2]} overlap in image {img.name}", c)
 
 
@@ -1021,14 +1024,20 @@ def diff_results(ctx, c, impl, model):
             ctx.disagree("link:" + key, c, a, b)
 
 
-def run_cases(ctx, cases):
-    """run the real link() on every case, then the model and the spec in one driver call"""
+def run_impls(cases):
     impls = []
     for c in cases:
         try:
             impls.append(run_impl(c))
         except Exception as e:  # building the input objects failed (generator bug) – not a verdict
             raise common.BrokenCheck(f"cannot build case {c.get('tag')}: {type(e).__name__}: {e}")
+    return impls
+
+
+def run_cases(ctx, cases, impls=None):
+    """run the real link() on every case, then the model and the spec in one driver call"""
+    if impls is None:
+        impls = run_impls(cases)
     reqs = []
     for c in cases:
         p = req_payload(c)
@@ -1102,21 +1111,25 @@ def run_cases(ctx, cases):
 
 def check(ctx):
     rng = ctx.rng
-    cs = corpus()
-    run_cases(ctx, cs)
-    ctx.count("corpus_cases", len(cs))
+    cases = corpus()
+    ctx.count("corpus_cases", len(cases))
+    impls = run_impls(cases)
     n = 4000 if ctx.thorough else 350
-    batch = 400 if ctx.thorough else 175
     prev_partials = []
     done = 0
     while done < n:
-        cases = [gen_case(rng, wild=rng.random() < 0.3, prev_partials=prev_partials) for _ in range(min(batch, n - done))]
-        res = run_cases(ctx, cases)
-        done += len(cases)
+        batch = [gen_case(rng, wild=rng.random() < 0.3, prev_partials=prev_partials) for _ in range(min(100, n - done))]
+        res = run_impls(batch)
+        done += len(batch)
+        cases += batch
+        impls += res
         # real partial-link outputs become inputs of later requests
-        for c, impl in res:
+        for c, (impl, _objs, _obs) in zip(batch, res):
             if c["partial"] and impl[0] == "ok" and len(prev_partials) < 60:
                 prev_partials.append(obj_to_case_obj(impl[1]))
+    step = 1000
+    for i in range(0, len(cases), step):
+        run_cases(ctx, cases[i:i + step], impls[i:i + step])
     check_images(ctx, 3000 if ctx.thorough else 300)
     ctx.extra_cov["exhaustive"] = False
 
